@@ -1,6 +1,7 @@
 """C15 (queries never crash) and C16 (query results equal what the Go API gives)
 (spec/QueryOps.tla, Query.tla, trace/QueryTrace.tla, trace/QueryCrashTrace.tla; harness/query)."""
 import json
+import os
 import re
 
 from . import common
@@ -124,5 +125,29 @@ def replay(ctx, path):
         print(p.stdout.decode())
         o = json.loads(p.stdout.decode().strip().split("\n")[-1])
         bad = o["died"] or o["parse"] == "panic" or "panic" in o["evals"] or any(f.endswith(":panic") for f in o["formats"])
+        return 1 if bad else 0
+    if ctx.prop == "C16" and w.get("query"):
+        # the observations are a function of (seed, count): generate them again and judge the ones of this query
+        m = re.search(r"(quick|thorough)-seed(\d+)-", os.path.basename(path))
+        tier, seed = (m.group(1), int(m.group(2))) if m else ("quick", 1)
+        ctx.seed = seed
+        ctx.build_vh()
+        ctx.prepare_spec()
+        allobs = ctx.path("all_obs.ndjson")
+        ctx.vh(["query", "eval", str(12000 if tier == "quick" else 250000)], stdout_path=allobs, timeout=6000)
+        obs = ctx.path("query_obs.ndjson")
+        n = 0
+        with open(allobs) as fin, open(obs, "w") as fout:
+            for l in fin:
+                if json.loads(l).get("q") == w["query"]:
+                    fout.write(l)
+                    n += 1
+        if n == 0:
+            print("the query was not generated again")
+            return 2
+        bad, total = common.validate_obs(ctx, "QueryTrace", "QueryTrace", "query_obs.ndjson", obs, timeout=600)
+        for o in bad:
+            print("rejected:", o["spec_extras"])
+        print("%d observations of this query judged, %d rejected" % (total, len(bad)))
         return 1 if bad else 0
     return 0
